@@ -22,6 +22,8 @@ def cfg : Cfg := { crc := crc32c, tornEraseOk := SH.Gen.C09.tornEraseAccepted }
 structure St where
   shards : List Shard
   snap : List Shard
+  /-- the harness reads everything through ONE reused scratch pad, as the agent does -/
+  pad : Bytes := []
 
 def adler (b : Bytes) : Nat :=
   let r := b.foldl (fun (p : Nat × Nat) x => let a := (p.1 + x.toNat) % 65521; (a, (p.2 + a) % 65521)) (1, 0)
@@ -82,7 +84,7 @@ def restartObs (shards : List Shard) : List String :=
 def step (st : St) (toks : List String) : St × List String :=
   match toks with
   | ["new", n] => match n.toNat? with
-    | some n => ({ shards := List.replicate n {}, snap := List.replicate n {} }, [])
+    | some n => ({ shards := List.replicate n {}, snap := List.replicate n {}, pad := [] }, [])
     | none => (st, ["bad-op"])
   | ["put", sh, t, d, r] => match t.toNat?, parseHex? d, r.toNat? with
     | some t, some d, some r =>
@@ -90,7 +92,15 @@ def step (st : St) (toks : List String) : St × List String :=
       withShard st sh (fun s => let (s', id) := put cfg s t d (r == 1); (s', s!"put id={id}"))
     | _, _, _ => (st, ["bad-op"])
   | ["get", sh, id, t] => match id.toNat?, t.toNat? with
-    | some id, some t => withShard st sh (fun s => let (s', g) := get cfg s id t; (s', "get " ++ getStr g))
+    | some id, some t =>
+      match sh.toNat? with
+      | none => (st, ["bad-op"])
+      | some i =>
+        match st.shards[i]? with
+        | none => (st, ["bad-op"])
+        | some s =>
+          let r := getP .asIs cfg s id t st.pad
+          ({ st with shards := st.shards.set i r.1, pad := r.2.2 }, [s!"get {getStr r.2.1} {tail r.1}"])
     | _, _ => (st, ["bad-op"])
   | ["erase", sh, id] => match id.toNat? with
     | some id => withShard st sh (fun s => (erase s id, "erase"))
